@@ -588,7 +588,12 @@ func (x *Exec) guardedEval(f func() *Term, c *Contract, cl Clause) (t *Term) {
 			if se, ok := r.(specErr); ok {
 				panic(specErr{fmt.Sprintf("%s:%d: contract %s: clause %q: %s", c.File, c.Line, c.Name, cl.Src, se.msg)})
 			}
-			panic(r)
+			if _, ok := r.(unsupported); ok {
+				panic(r)
+			}
+			// a clause that no longer type-checks against the function as it is now (a local it names changed its
+			// type, e.g. a slice became a map): the contract does not apply - undecided, never a crash
+			panic(specErr{fmt.Sprintf("%s:%d: contract %s: clause %q does not fit the function as it is now: %v", c.File, c.Line, c.Name, cl.Src, r)})
 		}
 	}()
 	return f()
